@@ -778,6 +778,16 @@ int yr_ac_automaton_destroy(YR_AC_AUTOMATON* automaton)
 // Adds a string to the automaton. This function is invoked once for each
 // string defined in the rules.
 //
+#ifdef YARA_VERIF
+// Verification hook: reports every atom actually inserted in the automaton.
+void (*yr_verif_on_atom)(
+    uint32_t string_idx,
+    const uint8_t* bytes,
+    const uint8_t* mask,
+    int length,
+    int backtrack) = NULL;
+#endif
+
 int yr_ac_add_string(
     YR_AC_AUTOMATON* automaton,
     YR_STRING* string,
@@ -788,6 +798,16 @@ int yr_ac_add_string(
   while (atom != NULL)
   {
     YR_AC_STATE* state = automaton->root;
+
+#ifdef YARA_VERIF
+    if (yr_verif_on_atom != NULL)
+      yr_verif_on_atom(
+          string_idx,
+          atom->atom.bytes,
+          atom->atom.mask,
+          atom->atom.length,
+          atom->backtrack);
+#endif
 
     for (int i = 0; i < atom->atom.length; i++)
     {
